@@ -26,6 +26,7 @@ func (r *InnerTokenRequest) Marshal() []byte {
 }
 
 func (r *InnerTokenRequest) Unmarshal(data []byte) bool {
+	r.raw = nil
 	s := cryptobyte.String(data)
 
 	if !s.ReadUint8(&r.tokenKeyId) || !s.ReadBytes(&r.blindedMsg, 256) {
